@@ -33,7 +33,12 @@ def _docstring(text: str) -> str:
     return '"""' + "".join(map(_escape, text)) + '"""'
 
 
-RESERVED_PROPERTIES = dir(object) + list(keyword.kwlist) + ["_dict"]
+RESERVED_PROPERTIES = (
+    dir(object)
+    + ["__dict__", "__weakref__"]
+    + list(keyword.kwlist)
+    + ["_dict"]
+)
 
 
 class ObjectClassDict(dict):
